@@ -86,6 +86,9 @@ A("neutralised by a repair made meanwhile (`extra_coords.add` now turns numpy-in
 A(f"{len(missed)} were missed (or caught only through the model) by the first version of")
 A("their check and led to the strengthening noted below; patches that no longer applied after a later repair of the same")
 A("lines were rebased by hand onto the repaired tree and re-confirmed.\n")
+A("After the round-6 generator changes the stored seeds of C01 and C09 (whose random streams shifted) were all re-run and are")
+A("still detected; the entries of the other properties in `seeded/STATUS.json` date from the regression before round 6 plus")
+A("the confirmation runs of the new seeds (their generators changed only in argument forms / pre-used objects).\n")
 A("| seed | caught by | note |")
 A("|---|---|---|")
 for name, m in seeds.items():
